@@ -12,7 +12,11 @@ Par == JsonDeserialize(IOEnv.PAR)
 GenPost == LET lower == SetToSeq(FOSentUpTo(Par.n - 1))
                top == SetToSeq(FON(Par.n, {}))
                pick == SelectSeq([j \in 1..Len(top) |-> IF j % Par.stride = 0 THEN top[j] ELSE <<>>], LAMBDA x : x # <<>>)
-               seq == lower \o pick
+               \* a binary operator applied to the same operand twice (sequences must repeat it)
+               ones == SetToSeq(FON(1, {}))
+               twins == SelectSeq([j \in 1..Len(ones) |-> IF j % 3 = 0 THEN <<"O", IF j % 2 = 0 THEN "Conjunction" ELSE "Conditional", <<ones[j], ones[j]>>>> ELSE <<>>],
+                                  LAMBDA x : x # <<>>)
+               seq == lower \o pick \o twins
                out == [j \in 1..Len(seq) |-> [id |-> j, s |-> seq[j]]]
            IN /\ TLCSet(2, 0)
               /\ PrintT(<<"GENERATED", Len(seq), Len(top)>>)
